@@ -43,17 +43,71 @@ Definition signed (t : ity) : bool :=
   | _ => false
   end.
 
-Definition modulus (t : ity) : Z := 2 ^ bits t.
-Definition half (t : ity) : Z := 2 ^ (bits t - 1).
+(* The constants are literal tables (not 2 ^ bits t) so that vm_compute does
+   not recompute powers at every operation; [modulus_pow] and [half_pow] below
+   relate them to the powers of two. *)
+Definition modulus (t : ity) : Z :=
+  match t with
+  | I8 | U8 => 256
+  | I16 | U16 => 65536
+  | I32 | U32 => 4294967296
+  | I64 | U64 => 18446744073709551616
+  end.
 
-Definition min_int (t : ity) : Z := if signed t then - half t else 0.
-Definition max_int (t : ity) : Z := if signed t then half t - 1 else modulus t - 1.
+Definition half (t : ity) : Z :=
+  match t with
+  | I8 | U8 => 128
+  | I16 | U16 => 32768
+  | I32 | U32 => 2147483648
+  | I64 | U64 => 9223372036854775808
+  end.
 
-Definition wrap (t : ity) (z : Z) : Z :=
-  if signed t then (z + half t) mod modulus t - half t else z mod modulus t.
+(* modulus t - 1, i.e. [bits t] one-bits *)
+Definition mask (t : ity) : Z :=
+  match t with
+  | I8 | U8 => 255
+  | I16 | U16 => 65535
+  | I32 | U32 => 4294967295
+  | I64 | U64 => 18446744073709551615
+  end.
+
+Definition min_int (t : ity) : Z :=
+  match t with
+  | I8 => -128
+  | I16 => -32768
+  | I32 => -2147483648
+  | I64 => -9223372036854775808
+  | _ => 0
+  end.
+
+Definition max_int (t : ity) : Z :=
+  match t with
+  | I8 => 127
+  | I16 => 32767
+  | I32 => 2147483647
+  | I64 => 9223372036854775807
+  | U8 => 255
+  | U16 => 65535
+  | U32 => 4294967295
+  | U64 => 18446744073709551615
+  end.
 
 Definition in_range (t : ity) (z : Z) : Prop := min_int t <= z <= max_int t.
 Definition in_rangeb (t : ity) (z : Z) : bool := (min_int t <=? z) && (z <=? max_int t).
+
+(* [wrap]: reduce an arbitrary integer to the value a Go variable of type [t]
+   holds after the operation.  Specification ([wrap_spec] below):
+
+     unsigned:  z mod 2^bits
+     signed:    (z + 2^(bits-1)) mod 2^bits - 2^(bits-1)
+
+   The definition is the fast equivalent: identity when already in range,
+   otherwise a bit mask (Z.land with 2^bits - 1 is mod 2^bits, also for
+   negative z). *)
+Definition wrap (t : ity) (z : Z) : Z :=
+  if in_rangeb t z then z
+  else if signed t then Z.land (z + half t) (mask t) - half t
+  else Z.land z (mask t).
 
 (* ------------------------------------------------------------------ *)
 (** * Operators (first argument: the static Go type of the expression) *)
@@ -77,7 +131,7 @@ Definition andnot (t : ity) (a b : Z) : Z := wrap t (Z.ldiff a b).
    whatever integer type it has in Go.  n < 0 panics in Go ([shift_ok]).
    n >= bits: all bits are shifted out. *)
 Definition shl (t : ity) (x n : Z) : Z :=
-  if (0 <=? n) && (n <? bits t) then wrap t (x * 2 ^ n) else 0.
+  if (0 <=? n) && (n <? bits t) then wrap t (Z.shiftl x n) else 0.
 Definition shr (t : ity) (x n : Z) : Z :=
   if (0 <=? n) && (n <? bits t) then wrap t (Z.shiftr x n)
   else if signed t && (x <? 0) then -1 else 0.
@@ -147,8 +201,6 @@ Arguments not_ : simpl never.
 Arguments conv : simpl never.
 Arguments bitlen : simpl never.
 Arguments trailing_zeros : simpl never.
-Arguments modulus : simpl never.
-Arguments half : simpl never.
 
 (* ------------------------------------------------------------------ *)
 (** * Basic facts about the constants *)
@@ -163,13 +215,26 @@ Lemma modulus_half : forall t, modulus t = 2 * half t.
 Proof. destruct t; reflexivity. Qed.
 
 Lemma modulus_pos : forall t, 0 < modulus t.
-Proof. intro t. rewrite modulus_half. pose proof (half_pos t). lia. Qed.
+Proof. destruct t; reflexivity. Qed.
 
 Lemma modulus_pow : forall t, modulus t = 2 ^ bits t.
-Proof. reflexivity. Qed.
+Proof. destruct t; reflexivity. Qed.
 
 Lemma half_pow : forall t, half t = 2 ^ (bits t - 1).
-Proof. reflexivity. Qed.
+Proof. destruct t; reflexivity. Qed.
+
+Lemma mask_ones : forall t, mask t = Z.ones (bits t).
+Proof. destruct t; reflexivity. Qed.
+
+Lemma min_int_eq : forall t, min_int t = if signed t then - half t else 0.
+Proof. destruct t; reflexivity. Qed.
+
+Lemma max_int_eq : forall t, max_int t = if signed t then half t - 1 else modulus t - 1.
+Proof. destruct t; reflexivity. Qed.
+
+(* exposes [in_range] as bounds in terms of [half]/[modulus] (generic in t) *)
+Ltac range_generic :=
+  unfold in_range in *; rewrite ?min_int_eq, ?max_int_eq in *.
 
 (* Concrete bounds, convenient for [lia]-style proofs: rewrite with these or
    use the tactic [unfold_range] below. *)
@@ -238,9 +303,24 @@ Proof. destruct t; unfold_range; lia. Qed.
 (* ------------------------------------------------------------------ *)
 (** * wrap *)
 
+(* The specification of [wrap]: Go's integer overflow rule. *)
+Lemma wrap_spec : forall t z,
+  wrap t z = if signed t then (z + half t) mod modulus t - half t else z mod modulus t.
+Proof.
+  intros t z. unfold wrap, in_rangeb.
+  pose proof (half_pos t) as Hh. pose proof (modulus_half t) as Hm.
+  pose proof (min_int_eq t) as Hmin. pose proof (max_int_eq t) as Hmax.
+  pose proof (bits_pos t) as Hb.
+  destruct ((min_int t <=? z) && (z <=? max_int t)) eqn:E.
+  - apply andb_true_iff in E. destruct E as [E1 E2].
+    apply Z.leb_le in E1. apply Z.leb_le in E2.
+    destruct (signed t); rewrite Z.mod_small by lia; lia.
+  - rewrite mask_ones, !Z.land_ones by lia. rewrite <- modulus_pow. reflexivity.
+Qed.
+
 Lemma wrap_range : forall t z, in_range t (wrap t z).
 Proof.
-  intros t z. unfold in_range, wrap, min_int, max_int.
+  intros t z. rewrite wrap_spec. unfold in_range. rewrite min_int_eq, max_int_eq.
   pose proof (half_pos t) as Hh. pose proof (modulus_half t) as Hm.
   destruct (signed t).
   - pose proof (Z.mod_pos_bound (z + half t) (modulus t)). lia.
@@ -249,11 +329,10 @@ Qed.
 
 Lemma wrap_id : forall t z, in_range t z -> wrap t z = z.
 Proof.
-  intros t z. unfold in_range, wrap, min_int, max_int.
-  pose proof (half_pos t) as Hh. pose proof (modulus_half t) as Hm.
-  destruct (signed t); intro H.
-  - rewrite Z.mod_small by lia. lia.
-  - rewrite Z.mod_small by lia. lia.
+  intros t z H. unfold wrap.
+  replace (in_rangeb t z) with true; [reflexivity|].
+  symmetry. unfold in_rangeb. destruct H.
+  apply andb_true_iff; split; apply Z.leb_le; assumption.
 Qed.
 
 Lemma wrap_idem : forall t z, wrap t (wrap t z) = wrap t z.
@@ -262,7 +341,7 @@ Proof. intros. apply wrap_id, wrap_range. Qed.
 (* wrap only changes a value by a multiple of 2^bits. *)
 Lemma wrap_congr : forall t z, exists k, wrap t z = z + k * modulus t.
 Proof.
-  intros t z. unfold wrap. pose proof (modulus_pos t) as Hm.
+  intros t z. rewrite wrap_spec. pose proof (modulus_pos t) as Hm.
   destruct (signed t).
   - exists (- ((z + half t) / modulus t)).
     pose proof (Z.div_mod (z + half t) (modulus t)). lia.
@@ -271,11 +350,11 @@ Proof.
 Qed.
 
 Lemma wrap_unsigned : forall t z, signed t = false -> wrap t z = z mod 2 ^ bits t.
-Proof. intros t z H. unfold wrap. rewrite H. reflexivity. Qed.
+Proof. intros t z H. rewrite wrap_spec, H, modulus_pow. reflexivity. Qed.
 
 Lemma wrap_signed : forall t z, signed t = true ->
   wrap t z = (z + 2 ^ (bits t - 1)) mod 2 ^ bits t - 2 ^ (bits t - 1).
-Proof. intros t z H. unfold wrap. rewrite H. reflexivity. Qed.
+Proof. intros t z H. rewrite wrap_spec, H, modulus_pow, half_pow. reflexivity. Qed.
 
 (* ------------------------------------------------------------------ *)
 (** * Range of every operator *)
@@ -350,7 +429,7 @@ Proof.
   destruct (Z.eqb_spec b 0); [contradiction|]. apply wrap_id.
   pose proof (rem_abs_le a b Hb) as Habs.
   pose proof (Z.rem_sign_nz a b) as Hs.
-  unfold in_range, min_int, max_int in *.
+  range_generic.
   pose proof (half_pos t). pose proof (modulus_half t).
   destruct (Z.eq_dec (Z.rem a b) 0) as [E|E].
   - rewrite E. destruct (signed t); lia.
@@ -363,7 +442,7 @@ Lemma quo_nonneg : forall t a b,
 Proof.
   intros t a b Ha Hb H. rewrite quo_nowrap by
     (try lia; rewrite Z.quot_div_nonneg by lia;
-     unfold in_range, min_int, max_int in *;
+     range_generic;
      pose proof (half_pos t);
      pose proof (Z.div_pos a b Ha Hb);
      assert (a / b <= a) by (apply Z.div_le_upper_bound; nia);
@@ -384,7 +463,17 @@ Proof.
   intros t x n Hn H. unfold shl.
   replace ((0 <=? n) && (n <? bits t)) with true
     by (symmetry; apply andb_true_iff; split; [apply Z.leb_le | apply Z.ltb_lt]; lia).
-  apply wrap_id; assumption.
+  rewrite Z.shiftl_mul_pow2 by lia. apply wrap_id; assumption.
+Qed.
+
+(* Specification of [shl] in terms of multiplication. *)
+Lemma shl_spec : forall t x n,
+  0 <= n < bits t -> shl t x n = wrap t (x * 2 ^ n).
+Proof.
+  intros t x n Hn. unfold shl.
+  replace ((0 <=? n) && (n <? bits t)) with true
+    by (symmetry; apply andb_true_iff; split; [apply Z.leb_le | apply Z.ltb_lt]; lia).
+  rewrite Z.shiftl_mul_pow2 by lia. reflexivity.
 Qed.
 
 Lemma shl_ge_bits : forall t x n, bits t <= n -> shl t x n = 0.
@@ -399,7 +488,7 @@ Lemma shiftr_in_range : forall t x n, 0 <= n -> in_range t x -> in_range t (Z.sh
 Proof.
   intros t x n Hn H. rewrite Z.shiftr_div_pow2 by assumption.
   assert (0 < 2 ^ n) by (apply Z.pow_pos_nonneg; lia).
-  unfold in_range, min_int, max_int in *.
+  range_generic.
   pose proof (half_pos t). pose proof (modulus_pos t).
   destruct (signed t).
   - split.
@@ -495,14 +584,14 @@ Qed.
 Lemma nonneg_range_pow : forall t, exists k, 0 <= k /\ max_int t + 1 = 2 ^ k.
 Proof.
   intro t. destruct (signed t) eqn:S.
-  - exists (bits t - 1). pose proof (bits_pos t). unfold max_int, half. rewrite S. split; lia.
-  - exists (bits t). pose proof (bits_pos t). unfold max_int, modulus. rewrite S. split; lia.
+  - exists (bits t - 1). pose proof (bits_pos t). rewrite max_int_eq, S, half_pow. split; lia.
+  - exists (bits t). pose proof (bits_pos t). rewrite max_int_eq, S, modulus_pow. split; lia.
 Qed.
 
 Lemma nonneg_in_range : forall t z, 0 <= z -> (in_range t z <-> z < max_int t + 1).
 Proof.
   intros t z Hz. unfold in_range. pose proof (half_pos t).
-  assert (min_int t <= 0) by (unfold min_int; destruct (signed t); lia). lia.
+  assert (min_int t <= 0) by (rewrite min_int_eq; destruct (signed t); lia). lia.
 Qed.
 
 Lemma and_nowrap : forall t a b,
@@ -567,7 +656,7 @@ Qed.
 (* Unsigned corollaries in the form asked for by proofs about generated code:
    in-range values of an unsigned type are non-negative. *)
 Lemma unsigned_nonneg : forall t z, signed t = false -> in_range t z -> 0 <= z.
-Proof. intros t z S [H _]. unfold min_int in H. rewrite S in H. assumption. Qed.
+Proof. intros t z S [H _]. rewrite min_int_eq, S in H. assumption. Qed.
 
 Lemma and_unsigned : forall t a b, signed t = false ->
   in_range t a -> in_range t b -> and_ t a b = Z.land a b.
